@@ -246,7 +246,7 @@ def judge(case, rep, S):
             nmoves = rng.randint(2, 4)
         rep.cnt("chains")
         for step in range(nmoves):
-            move = rng.choice(BACKEND_MOVES[:3] if reduced or case.get("big_frozen") else BACKEND_MOVES)
+            move = rng.choice(BACKEND_MOVES[:3] if case.get("big_frozen") else BACKEND_MOVES)
             parent, psnap = chain[-1]
             try:
                 if move == "swapRes":
